@@ -15,11 +15,14 @@ ACCESSOR = {"instantiate": "Instantiate", "exec": "ContractExec", "query": "Cont
             "migrate": "Migrate"}
 
 
-def program(over, has_migrate, has_reply, replies_feature, generic, order=None):
-    ms = [Method("instantiate", "inst", (Arg("a", "u32"),)),
-          Method("exec", "foo", (Arg("x", "u32"),)),
-          Method("query", "get_x", (), qret="u32"),
-          Method("sudo", "sd", ())]
+def program(over, has_migrate, has_reply, replies_feature, generic, order=None, bare=False):
+    """bare: the contract declares no exec / query / sudo handler of its own (their entry points exist all the same:
+    the contract-level messages still carry the interfaces' messages)."""
+    ms = [Method("instantiate", "inst", (Arg("a", "u32"),))]
+    if not bare:
+        ms += [Method("exec", "foo", (Arg("x", "u32"),)),
+               Method("query", "get_x", (), qret="u32"),
+               Method("sudo", "sd", ())]
     if has_migrate:
         ms.append(Method("migrate", "mig", (Arg("v", "u32"),)))
     if has_reply:
@@ -164,6 +167,12 @@ def configs(tier):
                     for feat in (False, True):
                         for generic in (False, True):
                             yield (frozenset(over), has_migrate, has_reply, feat, generic, None)
+    # contracts without own exec / query / sudo handlers
+    for n in range(0, 7):
+        for over in itertools.combinations(KINDS6, n):
+            for has_migrate in (False, True):
+                for has_reply in (False, True):
+                    yield (frozenset(over), has_migrate, has_reply, True, False, "bare")
     if tier == "thorough":
         for order in itertools.permutations(KINDS6):
             yield (frozenset(KINDS6[:3] + ["migrate"]), True, True, True, False, list(order))
@@ -173,6 +182,8 @@ def configs(tier):
 def e1_records(tier):
     recs = []
     for (over, has_migrate, has_reply, feat, generic, order) in configs("quick"):
+        if order == "bare":
+            continue
         c = program(over, has_migrate, has_reply, feat, generic, order)
         pid = "c06:%s:m%d:r%d:f%d:g%d" % ("+".join(sorted(over)) or "none", has_migrate, has_reply, feat, generic)
         recs.append(model.e1_entry_points_record("ep:" + pid, c, want="items,allbodies"))
@@ -184,9 +195,13 @@ def run(tier):
     recs, meta = [], {}
     for cfg in configs(tier):
         (over, has_migrate, has_reply, feat, generic, order) = cfg
-        c = program(over, has_migrate, has_reply, feat, generic, order)
-        pid = "%s:m%d:r%d:f%d:g%d%s" % ("+".join(sorted(over)) or "none", has_migrate, has_reply, feat, generic,
-                                        (":o" + "".join(k[0] for k in order)) if order else "")
+        bare = order == "bare"
+        if bare:
+            order = None
+        c = program(over, has_migrate, has_reply, feat, generic, order, bare=bare)
+        pid = "%s:m%d:r%d:f%d:g%d%s%s" % ("+".join(sorted(over)) or "none", has_migrate, has_reply, feat, generic,
+                                          (":o" + "".join(k[0] for k in order)) if order else "", ":bare" if bare else "")
+        cfg = (over, has_migrate, has_reply, feat, generic, order)
         r = model.e1_entry_points_record("ep:" + pid, c, want="items,allbodies")
         recs.append(r)
         meta[r["id"]] = (cfg, r["item"])
@@ -230,7 +245,8 @@ def run(tier):
             res.add(transitions=6)
     res.sample({"program": recs[37]["item"], "macro_attr": recs[37]["attr"]})
     res.cov["rule"] = ("all 2^6 subsets of overridden kinds x migrate handler present/absent x reply handler present/absent x "
-                       "features(replies) on/off x generic (entry_points(generics<..>)) / non-generic = 1024 configurations"
+                       "features(replies) on/off x generic (entry_points(generics<..>)) / non-generic = 1024 configurations, plus the 256 configurations of a "
+                       "contract without own exec/query/sudo handlers"
                        + (", plus all 720 orders of the override attributes on two programs" if tier == "thorough" else "")
                        + "; each through entry_points_impl (emitted fn set == formula; signature/forwarding shape of each emitted fn) and "
                        "through contract_impl (multitest Contract impl uses the override for exactly the overridden kinds); "
